@@ -171,12 +171,16 @@ def run (op impl : String) : Ans :=
                 (if pred.length == 1 then observed.length == 1 else observed.length ≥ 2)
               let model := if consistent then impl else "|".intercalate pred
               let accepted := observed.any fun o => o.startsWith "ok"
+              -- an ORPHAN host tag (key of Hosts listed under no product) must be rejected on EVERY load
+              let orphan := (f.hosts.getD []).any fun kv => !((allValues (f.hostTags.getD [])).contains kv.1)
               let verdict :=
                 if observed.any (fun o => o.startsWith "PANIC") then "FAIL:panic"
+                else if orphan && accepted then "FAIL:orphan-tag-accepted"
                 else if observed.length > 1 && accepted then "FAIL:" ++ cls
                 else "ok"
               { model := model, verdict := verdict,
                 tags := [cls, if accepted then "accept" else "reject", s!"outcomes{pred.length}"] ++
+                  (if orphan then ["orphan-tag"] else []) ++
                   (if accepted && !probes.isEmpty then ["nt"] else []) }
     | _ => { model := "bad-op", verdict := "skip" }
   | _ => { model := "bad-op", verdict := "skip" }
